@@ -998,6 +998,10 @@ func genGoMiniAll() []*leanFile {
 		[]string{sv + "activity.go"},
 		map[string][]string{sv + "activity.go": {"activityManager.publishActivityEvent", "computeActivityPublishBackoff"}},
 		[]string{sv + "activity.go"})})
+	out = append(out, &leanFile{name: "GoGroups", raw: genGoMini("GoGroups",
+		[]string{sv + "groups.go"},
+		map[string][]string{sv + "groups.go": {"consumerHeap.Less", "consumer.assignPartition", "consumer.removeStreamAssignments"}},
+		[]string{sv + "groups.go"})})
 	en := "server/encryption/"
 	out = append(out, &leanFile{name: "GoSeal", raw: genGoMini("GoSeal",
 		[]string{en + "localkey_handler.go"},
